@@ -183,6 +183,9 @@ func (configgen *ConfigGeneratorImpl) deltaFromServices(key model.ConfigKey, pro
 		}
 		// Service exists. If the service update has port change, we need to the corresponding port clusters.
 		services = append(services, service)
+		// The service is rebuilt, its subset clusters with it; a change of the service (e.g. of its resolution) can make
+		// subset clusters disappear. All of them are deletion candidates, the caller keeps what is rebuilt.
+		deletedClusters = append(deletedClusters, subsetClusters[service.Hostname.String()].UnsortedList()...)
 		for port, clusters := range servicePortClusters[service.Hostname.String()] {
 			// if this service port is removed, we can conclude that all its clusters are removed.
 			if _, exists := service.Ports.GetByPort(port); !exists {
